@@ -48,8 +48,7 @@ TRUSTED = [
     "validated against the Rust by the correspondence run, its history-level invariants are checked by chk_C18 on "
     "every trace (model and implementation) but proved only for the interface table (see PARTIAL)",
     "observation function of the simulated world: an IPv4 packet is reported on the interface that owns, in the OS "
-    "table of the moment, the address given to IP_MULTICAST_IF; the interface of goodbye packets is compared only by "
-    "the monitor (their repetition is sent without setting it); per browsed instance only the last "
+    "table of the moment, the address given to IP_MULTICAST_IF; per browsed instance only the last "
     "resolved/removed event of an iteration is compared (HashMap order of simultaneous interface removals)",
     "modelled, not verified: the daemon's own queries, probing, SearchStarted and monitor events other than IpAdd/IpDel "
     "are removed from the observation; record expiry is outside the histories (TTL 4500 s, histories < 40 s)",
@@ -58,7 +57,8 @@ PARTIAL = ("The history-level statement 'every packet of every reachable history
            "a matching subnet' is proved for the components (selection, subnet filter, interface table after a check, "
            "response contents) and monitored on traces; the induction over whole histories of the daemon model is not "
            "mechanised.  IfKind::Predicate (a user closure) is outside the model.  Multicast group membership itself "
-           "is removed by the hooks.  The cache attributes a PTR/SRV/TXT record heard on several interfaces to the "
+           "is removed by the hooks.  One finding stays (C18-selection-while-absent); the goodbye-repeat finding was "
+           "repaired in /repo and the model follows.  The cache attributes a PTR/SRV/TXT record heard on several interfaces to the "
            "first one only (theorem insert_keeps_first_attribution); the removal statements are relative to that "
            "attribution.")
 
@@ -415,11 +415,6 @@ def project(line, raw):
             if pk is not None and not (pk["flags"] & 0x8000):
                 continue
             tok = packet_tok(x, pk)
-            if pk is not None and pk["an"] and all(r["ttl"] == 0 for r in pk["an"]):
-                # a goodbye: its repetition leaves wherever the socket was last pointed at (finding
-                # C18-goodbye-resend-interface), and a repetition cannot be told from a first goodbye by its
-                # content; the interface of every goodbye is therefore given to the monitor separately
-                tok = tok.replace(";if=%s;" % ("?" if x.get("if") is None else x["if"]), ";if=*;", 1)
             tx.append(tok)
         outs.append("ev=%s tx=%s br=%s" % (",".join(sorted(ev)) or "-", "&".join(sorted(tx)) or "-",
                                            ",".join(sorted(br)) or "-"))
@@ -440,16 +435,8 @@ def model_input(line, raw):
             if t:
                 calls.append(t)
         dgs = ["%d/%s/%s" % (g["if"], src_tok(g["src"]), g["hex"]) for g in st.get("dgrams") or []]
-        gb = []
-        for x, pk in parsed_sent(rec):
-            if pk is not None and (pk["flags"] & 0x8000) and pk["an"] and all(r["ttl"] == 0 for r in pk["an"]):
-                # IPv6: a real stack sends a repeated goodbye through the interface named by the scope id of the
-                # destination; the simulated socket reports its (stale) IPV6_MULTICAST_IF option instead, so the
-                # interface of IPv6 goodbyes is not judged
-                real = "?" if (x.get("if") is None or not x["v4"]) else x["if"]
-                gb.append("%s~%s~%s" % (real, dest_tok(x), section_tok(pk["an"])))
         toks += ["S", str(st["t"]), os_tok(st["ifaces"]) if "ifaces" in st else "-", ";".join(dgs) or "-",
-                 "^".join(calls) or "-", ";".join(gb) or "-"]
+                 "^".join(calls) or "-", "-"]
     return " ".join(toks)
 
 
